@@ -186,7 +186,8 @@ Finish(s, f, hashId, refId, size, nbytes, m) ==
      /\ Chk("C03", \A p \in ptrs : (p[1] = ids /\ p[2] = salt[s]) => p[4] = size)
      /\ Chk("C14", /\ size = Bytes(ids) /\ m.total = Bytes(ids)
                    /\ m.new + m.dedup = m.total /\ m.nc + m.dc = m.tc /\ m.tc = Len(ids)
-                   /\ m.gdedup <= m.dedup                     \* bytes credited to global dedup are deduplicated bytes
+                   \* (the global-dedup sub-counter is not constrained: it counts the hits found after a global query
+                   \* before fragmentation prevention accepts them, so it can exceed m.dedup; C14 does not mention it)
                    /\ dec[f].new \cup dec[f].dedup = 0..(Len(ids) - 1)
                    /\ m.new = dec[f].nbytes /\ m.dedup = dec[f].dbytes
                    /\ m.nc = Cardinality(dec[f].new) /\ m.dc = Cardinality(dec[f].dedup)
